@@ -5,7 +5,7 @@
    CO oblivious transfer are opaque functions there. *)
 From Coq Require Import NArith List Bool Arith.
 From Mpc Require Import Gen.Consts Base.Label Base.Codec Circuit.Circuit Circuit.Garble
-     IO.Sha2pcCodec IO.Sha2pcProof IO.Sha2pcInstProof IO.RunC18.
+     IO.Sha2pcCodec IO.Sha2pcProof IO.Sha2pcInstProof IO.Sha2pcRounds IO.Sha2pcRoundsProof IO.RunC18.
 Import ListNotations.
 From Mpc Require Gen.State Base.StateExpected Base.StateCheck Base.StatePkgs.
 Open Scope N_scope.
@@ -114,8 +114,8 @@ Print Assumptions C18_reject_strict_prefix.
 (* canonical encodings: for EVERY string of bytes (values below 256) that
    Round1 / Round3 / GarblerSession / EvaluatorSession decoding accepts, the
    decoded value re-encodes to exactly those bytes (and is well-formed).
-   (Round2: only the length part, C18_reject_length; its canonicity needs a
-   soundness hypothesis on point decompression and is not proved.) *)
+   (Round2: C18_canonical_round2 below, under the soundness of point
+   decompression, which the harness checks against the implementation.) *)
 Theorem C18_canonical : forall c bs, is_bytes bs ->
   (forall m, DecodeRound1 c bs = Ok m -> EncodeRound1 c m = Ok bs /\ wf_r1 c m) /\
   (forall m, DecodeRound3 bs = Ok m -> EncodeRound3 m = Ok bs) /\
@@ -443,6 +443,341 @@ Theorem C18_reject_nested_length_prefix : forall c sid chunk n r1,
   decodeCOSenderSetup c sid chunk = Err /\ decodeChoiceBundle c sid chunk = Err.
 Proof. exact reject_nested_length_prefix. Qed.
 Print Assumptions C18_reject_nested_length_prefix.
+
+(* ---- C18_canonical_round2.  Round2 is canonical too.  [decompress] (the
+   model's stand-in for elliptic.UnmarshalCompressed) is ANY function with the
+   one property the proof needs, decompress_sound: an accepted (X, sign)
+   yields a point with that X, a Y of that parity — so that compressing the
+   answer gives back the encoding — that is on the curve.  For EVERY curve
+   and EVERY byte string that DecodeRound2 accepts: the decoded value
+   re-encodes to exactly those bytes, is well-formed, and each of its 256
+   points satisfies the curve equation (IO/Sha2pcRounds.v on_curve, with the
+   field prime and b of crypto/elliptic; run_c18 kind 10 compares them with
+   Params() on every run).  The hypothesis is checked against the real
+   elliptic.UnmarshalCompressed on every run: see C18_decompress_check_sound. *)
+Theorem C18_canonical_round2 : forall decompress c bs m,
+  (forall c x odd P, decompress c x odd = Some P ->
+     fst P = x /\ N.odd (snd P) = odd /\ on_curve c P = true) ->
+  is_bytes bs -> DecodeRound2 decompress c bs = Ok m ->
+  EncodeRound2 c m = Ok bs /\ wf_r2 decompress c m /\
+  Forall (fun p => on_curve c p = true) (r2_choices m).
+Proof. exact r2_canonical. Qed.
+Print Assumptions C18_canonical_round2.
+
+(* ---- C18_decompress_check_sound.  [unmarshal_compressed c data answer] is the
+   executable specification of elliptic.UnmarshalCompressed that the harness
+   evaluates (run_c18 kind 9) on the implementation's answer for canonical and
+   non-canonical encodings on every curve (X >= p, X = p + small, prefix bytes
+   0x00 / 0x04 / 0x05, flipped parity, X without a root, all-zero, the
+   infinity encoding, wrong lengths, and points of real Round2 messages).
+   For EVERY curve, prefix byte, byte string and answered Y: if it classifies
+   the answer as UCAccept x y then (x, y) is an instance of the conclusion of
+   the hypothesis of C18_canonical_round2 — X is the encoded one, the parity
+   is the prefix's, the point is on the curve — and compressing it gives back
+   exactly the input bytes (reject-or-roundtrip).  Any other answer of the
+   implementation shows up as verdict UCBadAnswer / UCMissed, which the
+   observed side never prints. *)
+Theorem C18_decompress_check_sound : forall c pre xb y x' y', is_bytes xb ->
+  unmarshal_compressed c (pre :: xb) (Some y) = UCAccept x' y' ->
+  x' = of_be_s xb /\ y' = y /\ N.odd y' = (pre =? 3) /\ on_curve c (x', y') = true /\
+  compress c x' (N.odd y') = pre :: xb.
+Proof. exact unmarshal_accept_sound. Qed.
+Print Assumptions C18_decompress_check_sound.
+
+(* ... and for EVERY byte string that is not 0x02/0x03 followed by byteLen
+   bytes of an X below the field prime, the only verdict compatible with the
+   specification is rejection, whatever the implementation answers *)
+Theorem C18_decompress_rejects_noncanonical : forall c data answer,
+  (match data with
+   | [] => True
+   | pre :: xb => length xb <> byteLen c \/ (pre <> 2 /\ pre <> 3) \/ curve_p c <= of_be_s xb
+   end) ->
+  unmarshal_compressed c data answer = UCReject.
+Proof. exact unmarshal_rejects_noncanonical. Qed.
+Print Assumptions C18_decompress_rejects_noncanonical.
+
+(* the hypothesis of C18_canonical_round2 is satisfiable by a function that
+   accepts a point on every curve (the base point), and accepted Round2 byte
+   strings exist under it on every curve *)
+Theorem C18_decompress_sound_inhabited :
+  (forall c x odd P, dec_base c x odd = Some P ->
+     fst P = x /\ N.odd (snd P) = odd /\ on_curve c P = true) /\
+  (forall c, dec_base c (fst (curve_g c)) (N.odd (snd (curve_g c))) = Some (curve_g c)) /\
+  (chunk_limit_ok -> forall c, exists bs m, DecodeRound2 dec_base c bs = Ok m).
+Proof.
+  exact (conj (proj1 decompress_sound_inhabited) (conj (proj2 decompress_sound_inhabited) r2_canonical_inhabited)).
+Qed.
+Print Assumptions C18_decompress_sound_inhabited.
+
+(* ---- C18_rounds_total.  The four round functions WITH their argument
+   validation (IO/Sha2pcRounds.v: nil randomness source, nil curve, nil / zero
+   session, session-id and curve-name comparison, and the validation inside
+   the ot helpers: ensureOnCurve of A, A^-a and every choice point, point and
+   ciphertext counts) return Ok or one of the 18 NAMED errors — never Panic —
+   for EVERY argument combination (every nil-ness, every message and session
+   value), for ALL cryptographic cores that do not panic themselves. *)
+Theorem C18_rounds_total :
+  forall RND gen_sender_core read_sid_core choices_core read_key_core garble_core encrypt_core
+         decrypt_core eval_core,
+  (forall (rng : RND) c, gen_sender_core rng c <> VPanic) ->
+  (forall rng, read_sid_core rng <> VPanic) ->
+  (forall rng c ax ay bits, choices_core rng c ax ay bits <> VPanic) ->
+  (forall rng, read_key_core rng <> VPanic) ->
+  (forall rng key, garble_core rng key <> VPanic) ->
+  (forall key ins labels tables, eval_core key ins labels tables <> VPanic) ->
+  (forall orng oc, GarblerRound1_v RND gen_sender_core read_sid_core orng oc <> VPanic) /\
+  (forall orng oc msg b, EvaluatorRound2_v RND choices_core orng oc msg b <> VPanic) /\
+  (forall orng oc ost sn a req,
+     GarblerRound3_v RND read_key_core garble_core encrypt_core orng oc ost sn a req <> VPanic) /\
+  (forall oc ost msg, EvaluatorRound4_v decrypt_core eval_core oc ost msg <> VPanic).
+Proof. exact rounds_total. Qed.
+Print Assumptions C18_rounds_total.
+
+(* ---- C18_round_steps_total.  The rounds at the byte level (a process that
+   holds a stored session and receives a message as BYTES: decode both, run
+   the round, encode the results).  Rounds 3 and 4: for EVERY pair of byte
+   strings (indeed every pair of lists of numbers) and every nil-ness of
+   randomness source and curve: Ok or a named error, never Panic.  Rounds 1
+   and 2 encode scalars and coordinates with writeFixedBigInt, which panics
+   on a value wider than the field: total for every Round1 byte string when
+   the sampled scalars and computed coordinates fit the curve's field width. *)
+Theorem C18_round_steps_total :
+  forall RND gen_sender_core read_sid_core choices_core read_key_core garble_core encrypt_core
+         decrypt_core eval_core decompress,
+  (forall (rng : RND) c, gen_sender_core rng c <> VPanic) ->
+  (forall rng, read_sid_core rng <> VPanic) ->
+  (forall rng c ax ay bits, choices_core rng c ax ay bits <> VPanic) ->
+  (forall rng, read_key_core rng <> VPanic) ->
+  (forall rng key, garble_core rng key <> VPanic) ->
+  (forall key ins labels tables, eval_core key ins labels tables <> VPanic) ->
+  ((forall orng oc gsb a msg2,
+      garbler_step3 RND read_key_core garble_core encrypt_core decompress orng oc gsb a msg2 <> VPanic) /\
+   (forall oc esb msg3, evaluator_step4 decrypt_core eval_core oc esb msg3 <> VPanic)) /\
+  ((forall rng c a ax ay ix iy,
+      gen_sender_core rng c = VOk (a, (ax, ay), (ix, iy)) -> Forall (fits (byteLen c)) [a; ax; ay; ix; iy]) ->
+   (forall rng c ax ay bits scalars points,
+      choices_core rng c ax ay bits = VOk (scalars, points) ->
+      Forall (fits (byteLen c)) scalars /\ Forall (fits (byteLen c)) (map fst points)) ->
+   (forall orng oc, garbler_step1 RND gen_sender_core read_sid_core orng oc <> VPanic) /\
+   (forall orng oc msg1 b, is_bytes msg1 -> evaluator_step2 RND choices_core orng oc msg1 b <> VPanic)).
+Proof.
+  exact (fun RND gs rs cc rk gc ec dc ev dz H1 H2 H3 H4 H5 H6 =>
+           conj (steps34_total RND rk gc ec dc ev dz H4 H5 H6)
+                (fun F1 F2 => steps12_total RND gs rs cc H1 H2 H3 F1 F2)).
+Qed.
+Print Assumptions C18_round_steps_total.
+
+(* the hypotheses of the two totality theorems are satisfiable, and the rounds
+   reach Ok under such cores *)
+Theorem C18_rounds_total_hypotheses_inhabited :
+  ((forall rng c, nvv_gen rng c <> VPanic) /\ (forall rng, nvv_sid rng <> VPanic) /\
+   (forall rng c ax ay bits, nvv_choices rng c ax ay bits <> VPanic) /\ (forall rng, nvv_key rng <> VPanic) /\
+   (forall rng key, nvv_garble rng key <> VPanic) /\ (forall key i l t, nvv_eval key i l t <> VPanic) /\
+   (forall rng c a ax ay ix iy,
+      nvv_gen rng c = VOk (a, (ax, ay), (ix, iy)) -> Forall (fits (byteLen c)) [a; ax; ay; ix; iy]) /\
+   (forall rng c ax ay bits scalars points,
+      nvv_choices rng c ax ay bits = VOk (scalars, points) ->
+      Forall (fits (byteLen c)) scalars /\ Forall (fits (byteLen c)) (map fst points))) /\
+  (forall c,
+    (exists r, GarblerRound1_v unit nvv_gen nvv_sid (Some tt) (Some c) = VOk r) /\
+    (exists r, EvaluatorRound2_v unit nvv_choices (Some tt) (Some c)
+                 (mkR1 7 (curve_name c) (fst (curve_g c)) (snd (curve_g c))) (repeat 0%N 32%nat) = VOk r)) /\
+  (forall c,
+    (exists r, GarblerRound3_v unit nvv_key nvv_garble (fun _ _ _ _ => []) (Some tt) (Some c)
+                 (Some (mkGS 7 (curve_name c) 1 (fst (curve_g c)) (snd (curve_g c)) (fst (curve_g c)) (snd (curve_g c))))
+                 false (repeat 0%N 32%nat)
+                 (mkR2 7 (curve_name c) (repeat (curve_g c) hashInputBitCount)) = VOk r) /\
+    (exists d, EvaluatorRound4_v (fun _ _ _ => []) nvv_eval (Some c)
+                 (Some (mkES 7 (curve_name c) (fst (curve_g c)) (snd (curve_g c)) (repeat 1 2%nat) (repeat false 2%nat)))
+                 (mkR3 7 [] [] [] (repeat (0, 1) outputHintCount) (repeat (0, 0) 2%nat)) = VOk d)).
+Proof. exact (conj rounds_total_hypotheses_inhabited (conj rounds_reach_ok rounds_reach_ok34)). Qed.
+Print Assumptions C18_rounds_total_hypotheses_inhabited.
+
+(* ---- C18_rounds_ok_only_if.  Never Ok on the wrong input, for ALL
+   cryptographic cores (even ones that panic): a round function returns Ok
+   ONLY IF no argument is nil, the session is not the zero session, the
+   message carries the session's id (rounds 3, 4) resp. the curve's name
+   (round 2), the sender's points A / A^-a and EVERY one of the evaluator's
+   choice points satisfy the equation of the curve the round is run with, and
+   the counts agree.  (The CurveName fields of a GarblerSession /
+   EvaluatorSession / Round2Payload VALUE are not consulted by rounds 3 and 4:
+   a value of another curve is refused because its points are not on this
+   curve, not by its name; at the byte level the decoders compare the name,
+   C18_steps_reject_other_curve.) *)
+Theorem C18_rounds_ok_only_if :
+  forall RND gen_sender_core read_sid_core choices_core read_key_core garble_core encrypt_core
+         decrypt_core eval_core,
+  (forall orng oc m1 gs, GarblerRound1_v RND gen_sender_core read_sid_core orng oc = VOk (m1, gs) ->
+     exists rng c, orng = Some rng /\ oc = Some c /\
+       r1_name m1 = curve_name c /\ gs_name gs = curve_name c /\ r1_sid m1 = gs_sid gs /\
+       r1_ax m1 = gs_ax gs /\ r1_ay m1 = gs_ay gs) /\
+  (forall orng oc msg b m2 es, EvaluatorRound2_v RND choices_core orng oc msg b = VOk (m2, es) ->
+     exists rng c scalars points, orng = Some rng /\ oc = Some c /\
+       r1_name msg = curve_name c /\ on_curve c (r1_ax msg, r1_ay msg) = true /\
+       choices_core rng c (r1_ax msg) (r1_ay msg) (bytesToBitsLittle b) = VOk (scalars, points) /\
+       m2 = mkR2 (r1_sid msg) (curve_name c) points /\
+       es = mkES (r1_sid msg) (curve_name c) (r1_ax msg) (r1_ay msg) scalars (bytesToBitsLittle b)) /\
+  (forall orng oc ost sn a req m3,
+     GarblerRound3_v RND read_key_core garble_core encrypt_core orng oc ost sn a req = VOk m3 ->
+     exists rng c st, orng = Some rng /\ oc = Some c /\ ost = Some st /\ sn = false /\
+       r2_sid req = gs_sid st /\ r3_sid m3 = gs_sid st /\
+       on_curve c (gs_ax st, gs_ay st) = true /\ on_curve c (gs_ainvx st, gs_ainvy st) = true /\
+       forallb (on_curve c) (r2_choices req) = true) /\
+  (forall oc ost msg d, EvaluatorRound4_v decrypt_core eval_core oc ost msg = VOk d ->
+     exists c st, oc = Some c /\ ost = Some st /\ es_scalars st <> [] /\ r3_sid msg = es_sid st /\
+       length (es_scalars st) = length (es_bits st) /\ length (r3_cts msg) = length (es_bits st) /\
+       on_curve c (es_ax st, es_ay st) = true /\ length (r3_hints msg) = outputHintCount /\
+       length d = 32%nat).
+Proof.
+  exact (fun RND gs rs cc rk gc ec dc ev =>
+           conj (round1_ok_inv RND gs rs) (conj (round2_ok_inv RND cc)
+             (conj (round3_ok_inv RND rk gc ec) (round4_ok_inv dc ev)))).
+Qed.
+Print Assumptions C18_rounds_ok_only_if.
+
+(* ---- C18_rounds_named_errors.  Which named error each validation step
+   returns, in the order of the code (the first failing check decides), for
+   ALL cores, randomness, messages and sessions.  The harness calls the real
+   round functions with such arguments on every run and compares the error
+   with the model's (run_c18 kind 11). *)
+Theorem C18_rounds_named_errors :
+  forall RND gen_sender_core read_sid_core choices_core read_key_core garble_core encrypt_core
+         decrypt_core eval_core,
+  (forall oc, GarblerRound1_v RND gen_sender_core read_sid_core None oc = VErr ENilRandom) /\
+  (forall rng, GarblerRound1_v RND gen_sender_core read_sid_core (Some rng) None = VErr ENilCurve) /\
+  (forall oc msg b, EvaluatorRound2_v RND choices_core None oc msg b = VErr ENilRandom) /\
+  (forall rng msg b, EvaluatorRound2_v RND choices_core (Some rng) None msg b = VErr ENilCurve) /\
+  (forall rng c msg b, r1_name msg <> curve_name c ->
+     EvaluatorRound2_v RND choices_core (Some rng) (Some c) msg b = VErr ECurveMismatch) /\
+  (forall rng c msg b, r1_name msg = curve_name c -> length b = 32%nat ->
+     on_curve c (r1_ax msg, r1_ay msg) = false ->
+     EvaluatorRound2_v RND choices_core (Some rng) (Some c) msg b = VErr EPointNotOnCurve) /\
+  (forall oc ost sn a req,
+     GarblerRound3_v RND read_key_core garble_core encrypt_core None oc ost sn a req = VErr ENilRandom) /\
+  (forall rng oc sn a req,
+     GarblerRound3_v RND read_key_core garble_core encrypt_core (Some rng) oc None sn a req
+     = VErr EInvalidGarblerSession) /\
+  (forall rng oc st a req,
+     GarblerRound3_v RND read_key_core garble_core encrypt_core (Some rng) oc (Some st) true a req
+     = VErr EInvalidGarblerSession) /\
+  (forall rng st a req,
+     GarblerRound3_v RND read_key_core garble_core encrypt_core (Some rng) None (Some st) false a req
+     = VErr ENilCurve) /\
+  (forall rng c st a req, r2_sid req <> gs_sid st ->
+     GarblerRound3_v RND read_key_core garble_core encrypt_core (Some rng) (Some c) (Some st) false a req
+     = VErr ESessionMismatch) /\
+  (forall oc msg, EvaluatorRound4_v decrypt_core eval_core oc None msg = VErr EInvalidEvaluatorState) /\
+  (forall oc st msg, es_scalars st = [] ->
+     EvaluatorRound4_v decrypt_core eval_core oc (Some st) msg = VErr EInvalidEvaluatorState) /\
+  (forall st msg, es_scalars st <> [] ->
+     EvaluatorRound4_v decrypt_core eval_core None (Some st) msg = VErr ENilCurve) /\
+  (forall c st msg, es_scalars st <> [] -> r3_sid msg <> es_sid st ->
+     EvaluatorRound4_v decrypt_core eval_core (Some c) (Some st) msg = VErr ESessionMismatch) /\
+  (forall c st msg, es_scalars st <> [] -> r3_sid msg = es_sid st ->
+     (length (es_scalars st) <> length (es_bits st) \/ length (r3_cts msg) <> length (es_bits st)) ->
+     EvaluatorRound4_v decrypt_core eval_core (Some c) (Some st) msg = VErr EBundle) /\
+  (forall c st msg, es_scalars st <> [] -> r3_sid msg = es_sid st ->
+     length (es_scalars st) = length (es_bits st) -> length (r3_cts msg) = length (es_bits st) ->
+     on_curve c (es_ax st, es_ay st) = false ->
+     EvaluatorRound4_v decrypt_core eval_core (Some c) (Some st) msg = VErr EPointNotOnCurve).
+Proof. exact rounds_named_errors. Qed.
+Print Assumptions C18_rounds_named_errors.
+
+(* ---- C18_steps_ok_only_if.  Byte level, for EVERY byte string given as stored
+   session / incoming message and ALL cores: a step returns Ok ONLY IF the
+   session bytes decode as a session of THIS kind and curve, the message bytes
+   decode as the message of THIS round and curve, both carry the same session
+   id, and all points are on the curve. *)
+Theorem C18_steps_ok_only_if :
+  forall RND choices_core read_key_core garble_core encrypt_core decrypt_core eval_core decompress,
+  (forall orng oc msg1 b out, evaluator_step2 RND choices_core orng oc msg1 b = VOk out ->
+     exists rng c m1, orng = Some rng /\ oc = Some c /\ DecodeRound1 c msg1 = Ok m1 /\
+       on_curve c (r1_ax m1, r1_ay m1) = true) /\
+  (forall orng oc gsb a msg2 out,
+     garbler_step3 RND read_key_core garble_core encrypt_core decompress orng oc gsb a msg2 = VOk out ->
+     exists rng c gs m2, orng = Some rng /\ oc = Some c /\
+       DecodeGarblerSession c gsb = Ok gs /\ DecodeRound2 decompress c msg2 = Ok m2 /\
+       r2_sid m2 = gs_sid gs /\
+       on_curve c (gs_ax gs, gs_ay gs) = true /\ on_curve c (gs_ainvx gs, gs_ainvy gs) = true /\
+       forallb (on_curve c) (r2_choices m2) = true) /\
+  (forall oc esb msg3 d, evaluator_step4 decrypt_core eval_core oc esb msg3 = VOk d ->
+     exists c es m3, oc = Some c /\ DecodeEvaluatorSession c esb = Ok es /\ DecodeRound3 msg3 = Ok m3 /\
+       r3_sid m3 = es_sid es /\ on_curve c (es_ax es, es_ay es) = true /\ length d = 32%nat).
+Proof.
+  exact (fun RND cc rk gc ec dc ev dz =>
+           conj (step2_ok_inv RND cc) (conj (step3_ok_inv RND rk gc ec dz) (step4_ok_inv dc ev))).
+Qed.
+Print Assumptions C18_steps_ok_only_if.
+
+(* ---- C18_steps_reject_wrong_round / _other_curve / _other_session.  Byte
+   level, ALL cores: EVERY byte string that does not start with the magic of
+   the expected round / session kind (in particular every encoding of another
+   round's message or of the other party's session) is answered with the named
+   error EDecode; so is the encoding of EVERY well-formed message or session of
+   another curve; a message that decodes but carries another session id is
+   answered with ESessionMismatch. *)
+Theorem C18_steps_reject_wrong_round :
+  forall RND choices_core read_key_core garble_core encrypt_core decrypt_core eval_core decompress c orng,
+  (forall msg1 b, firstn 2 msg1 <> magicRound1 ->
+     evaluator_step2 RND choices_core orng (Some c) msg1 b = VErr EDecode) /\
+  (forall gsb a msg2, firstn 2 gsb <> magicGarblerSession \/ firstn 2 msg2 <> magicRound2 ->
+     garbler_step3 RND read_key_core garble_core encrypt_core decompress orng (Some c) gsb a msg2 = VErr EDecode) /\
+  (forall esb msg3, firstn 2 esb <> magicEvalSession \/ firstn 2 msg3 <> magicRound3 ->
+     evaluator_step4 decrypt_core eval_core (Some c) esb msg3 = VErr EDecode).
+Proof. exact steps_reject_wrong_round. Qed.
+Print Assumptions C18_steps_reject_wrong_round.
+
+Theorem C18_steps_reject_other_curve :
+  forall RND choices_core read_key_core garble_core encrypt_core decrypt_core eval_core decompress,
+  chunk_limit_ok -> forall c c' orng, c <> c' ->
+  (forall m msg1 b, wf_r1 c m -> EncodeRound1 c m = Ok msg1 ->
+     evaluator_step2 RND choices_core orng (Some c') msg1 b = VErr EDecode) /\
+  (forall gsb a m msg2, EncodeRound2 c m = Ok msg2 ->
+     garbler_step3 RND read_key_core garble_core encrypt_core decompress orng (Some c') gsb a msg2 = VErr EDecode) /\
+  (forall s gsb a msg2, wf_gs c s -> EncodeGarblerSession c s = Ok gsb ->
+     garbler_step3 RND read_key_core garble_core encrypt_core decompress orng (Some c') gsb a msg2 = VErr EDecode) /\
+  (forall s esb msg3, wf_es c s -> EncodeEvaluatorSession c s = Ok esb ->
+     evaluator_step4 decrypt_core eval_core (Some c') esb msg3 = VErr EDecode).
+Proof. exact steps_reject_other_curve. Qed.
+Print Assumptions C18_steps_reject_other_curve.
+
+Theorem C18_steps_reject_other_session :
+  forall RND read_key_core garble_core encrypt_core decrypt_core eval_core decompress c (rng : RND),
+  (forall gsb a msg2 gs m2, DecodeGarblerSession c gsb = Ok gs -> DecodeRound2 decompress c msg2 = Ok m2 ->
+     r2_sid m2 <> gs_sid gs ->
+     garbler_step3 RND read_key_core garble_core encrypt_core decompress (Some rng) (Some c) gsb a msg2
+     = VErr ESessionMismatch) /\
+  (forall esb msg3 es m3, DecodeEvaluatorSession c esb = Ok es -> DecodeRound3 msg3 = Ok m3 ->
+     r3_sid m3 <> es_sid es ->
+     evaluator_step4 decrypt_core eval_core (Some c) esb msg3 = VErr ESessionMismatch).
+Proof. exact steps_reject_other_session. Qed.
+Print Assumptions C18_steps_reject_other_session.
+
+(* ---- C18_rounds_refine_codec_model.  The validated rounds ARE the rounds of
+   IO/Sha2pcCodec.v — the ones C18_resume, C18_protocol_correct and
+   C18_rounds_are_functions speak about — with the opaque functions there
+   instantiated by (validation ; core) and the error names forgotten: for
+   ALL cores, curves, randomness, messages and sessions (round 1 and the key of
+   round 3: when the randomness source does not run dry, which the older
+   model assumes throughout). *)
+Theorem C18_rounds_refine_codec_model :
+  forall RND gen_sender_core read_sid_core choices_core read_key_core garble_core encrypt_core
+         decrypt_core eval_core c (rng : RND),
+  (forall g s, gen_sender_core rng c = VOk g -> read_sid_core rng = VOk s ->
+     GarblerRound1_v RND gen_sender_core read_sid_core (Some rng) (Some c)
+     = VOk (GarblerRound1 RND c (old_gen_sender RND gen_sender_core c) (old_read_sid RND read_sid_core) rng)) /\
+  (forall msg b,
+     erase (EvaluatorRound2_v RND choices_core (Some rng) (Some c) msg b)
+     = EvaluatorRound2 RND c (old_build_choices RND choices_core c) rng msg b) /\
+  (forall k st a req, read_key_core rng = VOk k ->
+     erase (GarblerRound3_v RND read_key_core garble_core encrypt_core (Some rng) (Some c) (Some st) false a req)
+     = GarblerRound3 RND (old_read_key RND read_key_core) (old_garble RND garble_core)
+                     (old_encrypt encrypt_core c) rng st a req) /\
+  (forall st msg,
+     erase (EvaluatorRound4_v decrypt_core eval_core (Some c) (Some st) msg)
+     = EvaluatorRound4 (old_decrypt decrypt_core c) (old_eval eval_core) st msg).
+Proof. exact rounds_refine_codec_model. Qed.
+Print Assumptions C18_rounds_refine_codec_model.
 
 (* STATE INVENTORY (finite obligation on the model regenerated from the source, checked by
    computation).  The struct fields and package-level variables of the Go packages this
